@@ -94,7 +94,7 @@ class ShortReadStream:
 
 LOOSE_PATHS = ['add_object', 'add_streamed', 'add_streamed_short_one', 'add_streamed_short_nminus1', 'add_streamed_short_alternate']
 PACK_PATHS = ['topack', 'topack_c', 'sotopack', 'sotopack_c_short', 'stopack_lazy', 'stopack_lazy_c', 'batch_twice', 'batch_twice_c',
-              'noholes_twice', 'noholes_once', 'noholes_once_c', 'loose_pack_NO', 'loose_pack_YES', 'loose_pack_AUTO']
+              'noholes_twice', 'noholes_once', 'noholes_once_c', 'loose_pack_NO', 'loose_pack_YES', 'loose_pack_AUTO', 'sotopack_prepositioned']
 
 
 def write_items(c, path, items, tmpdir):
@@ -137,6 +137,15 @@ def write_items(c, path, items, tmpdir):
         if r2[len(items[::2]):] != r:
             return ['MISMATCH-BETWEEN-REPEATS'] * len(items)
         return r
+    if path == 'sotopack_prepositioned':
+        # a stream whose position is not at the start when it is handed over (the caller sniffed a header), stored with and without
+        # the read-twice strategy; whatever the library decides to store, the returned key must be the digest of the stored bytes
+        out = []
+        for i, d in enumerate(items):
+            st = io.BytesIO(d)
+            st.read(min(3, len(d)))
+            out.append(c.add_streamed_object_to_pack(st, no_holes=True, no_holes_read_twice=(i % 2 == 0), compress=(i % 3 == 0)))
+        return out
     if path.startswith('loose_pack_'):
         keys = [c.add_object(d) for d in items]
         c.pack_all_loose(compress=CompressMode[path.rsplit('_', 1)[1]])
@@ -220,6 +229,15 @@ def _case(arg):
         ht = config['hash_type']
         try:
             keys = write_items(c, path, items, tmp)
+            if path == 'sotopack_prepositioned':
+                # self-consistency oracle: the key is the digest of what reads back, which is the content or the unread remainder
+                for k, data in zip(keys, items):
+                    back = c.get_object_content(k)
+                    if hashlib.new(ht, back).hexdigest() != k or back not in (data, data[min(3, len(data)):]) or c.get_object_meta(k).size != len(back):
+                        probs.append(('returned-key', f'{path}: item of {len(data)} bytes: key {k[:12]} reads back as {len(back)} bytes whose digest is '
+                                                      f'{hashlib.new(ht, back).hexdigest()[:12]}'))
+                        break
+                return len(items), probs[:4]
             for k, data in zip(keys, items):
                 exp = hashlib.new(ht, data).hexdigest()
                 if k != exp:
